@@ -44,6 +44,14 @@ pub struct Inventory {
     pub consts: BTreeMap<String, String>,
 }
 
+/// `r#Foo` and `Foo` are the same Rust identifier (unless `Foo` is a keyword).
+pub fn plain_ident(name: &str) -> String {
+    match name.strip_prefix("r#") {
+        Some(plain) if syn::parse_str::<syn::Ident>(plain).is_ok() => plain.to_string(),
+        _ => name.to_string(),
+    }
+}
+
 /// A type reduced to its shape and the last segment of every path, with `c_void` as `void`.
 pub fn normalise_type(ty: &syn::Type) -> String {
     match ty {
@@ -62,7 +70,7 @@ pub fn normalise_type(ty: &syn::Type) -> String {
                 .path
                 .segments
                 .last()
-                .map(|s| s.ident.to_string())
+                .map(|s| plain_ident(&s.ident.to_string()))
                 .unwrap_or_default();
             if last == "c_void" {
                 "void".into()
@@ -94,7 +102,7 @@ pub fn normalise_grammar_type(ty: &pyxis::grammar::Type) -> String {
         T::ConstPointer(t) => format!("*const {}", normalise_grammar_type(t)),
         T::MutPointer(t) => format!("*mut {}", normalise_grammar_type(t)),
         T::Array(t, n) => format!("[{}; {}]", normalise_grammar_type(t), n),
-        T::Ident(i) => i.as_str().to_string(),
+        T::Ident(i) => plain_ident(i.as_str()),
         T::Unknown(n) => format!("[u8; {n}]"),
     }
 }
@@ -105,14 +113,14 @@ pub fn inventory(text: &str) -> Result<Inventory, String> {
     for item in &file.items {
         match item {
             syn::Item::Struct(s) => {
-                let n = s.ident.to_string();
+                let n = plain_ident(&s.ident.to_string());
                 *inv.structs.entry(n.clone()).or_insert(0) += 1;
                 let fields = s
                     .fields
                     .iter()
                     .map(|f| {
                         (
-                            f.ident.as_ref().map(|i| i.to_string()).unwrap_or_default(),
+                            f.ident.as_ref().map(|i| plain_ident(&i.to_string())).unwrap_or_default(),
                             normalise_type(&f.ty),
                         )
                     })
@@ -121,7 +129,7 @@ pub fn inventory(text: &str) -> Result<Inventory, String> {
                 inv.order.push(Top::Struct(n));
             }
             syn::Item::Enum(e) => {
-                let n = e.ident.to_string();
+                let n = plain_ident(&e.ident.to_string());
                 *inv.enums.entry(n.clone()).or_insert(0) += 1;
                 for a in &e.attrs {
                     if a.path().is_ident("repr") {
@@ -132,12 +140,12 @@ pub fn inventory(text: &str) -> Result<Inventory, String> {
                 }
                 inv.enum_variants.insert(
                     n.clone(),
-                    e.variants.iter().map(|v| v.ident.to_string()).collect(),
+                    e.variants.iter().map(|v| plain_ident(&v.ident.to_string())).collect(),
                 );
                 inv.order.push(Top::Enum(n));
             }
             syn::Item::Fn(f) => {
-                let n = f.sig.ident.to_string();
+                let n = plain_ident(&f.sig.ident.to_string());
                 *inv.fns.entry(n.clone()).or_insert(0) += 1;
                 inv.fn_rets.insert(
                     n.clone(),
@@ -164,7 +172,7 @@ pub fn inventory(text: &str) -> Result<Inventory, String> {
                 for it in &i.items {
                     if let syn::ImplItem::Fn(f) = it {
                         let mut m = Method {
-                            name: f.sig.ident.to_string(),
+                            name: plain_ident(&f.sig.ident.to_string()),
                             is_pub: matches!(f.vis, syn::Visibility::Public(_)),
                             ..Default::default()
                         };
@@ -188,4 +196,84 @@ pub fn inventory(text: &str) -> Result<Inventory, String> {
         }
     }
     Ok(inv)
+}
+
+/// One `prologue`/`epilogue` entry of a `backend` block, read from the module's text by a
+/// reader of its own (token level, independent of pyxis's parser): backend name, whether it
+/// is a prologue, and the text (trimmed, as the backend pastes it).
+#[derive(Clone, Debug, PartialEq, Eq)]
+pub struct BackendEntry {
+    pub backend: String,
+    pub is_prologue: bool,
+    pub text: String,
+}
+
+/// All backend entries of a module text in source order; `None` when the text does not lex or
+/// a `backend` block has a shape this reader does not know.
+pub fn backend_entries(text: &str) -> Option<Vec<BackendEntry>> {
+    use proc_macro2::{Delimiter, TokenStream, TokenTree};
+    let tokens: Vec<TokenTree> = std::panic::catch_unwind(|| text.parse::<TokenStream>())
+        .ok()?
+        .ok()?
+        .into_iter()
+        .collect();
+    fn entry(backend: &str, toks: &[TokenTree], at: usize) -> Option<(BackendEntry, usize)> {
+        let TokenTree::Ident(kind) = toks.get(at)? else {
+            return None;
+        };
+        let is_prologue = match kind.to_string().as_str() {
+            "prologue" => true,
+            "epilogue" => false,
+            _ => return None,
+        };
+        let TokenTree::Literal(lit) = toks.get(at + 1)? else {
+            return None;
+        };
+        let s: syn::LitStr = syn::parse_str(&lit.to_string()).ok()?;
+        match toks.get(at + 2)? {
+            TokenTree::Punct(p) if p.as_char() == ';' => {}
+            _ => return None,
+        }
+        Some((
+            BackendEntry {
+                backend: backend.to_string(),
+                is_prologue,
+                text: s.value().trim().to_string(),
+            },
+            at + 3,
+        ))
+    }
+    let mut out = vec![];
+    let mut i = 0;
+    while i < tokens.len() {
+        let is_backend = matches!(&tokens[i], TokenTree::Ident(id) if id.to_string() == "backend");
+        let name = match tokens.get(i + 1) {
+            Some(TokenTree::Ident(n)) if is_backend => n.to_string(),
+            _ => {
+                i += 1;
+                continue;
+            }
+        };
+        match tokens.get(i + 2) {
+            Some(TokenTree::Group(g)) if g.delimiter() == Delimiter::Brace => {
+                let inner: Vec<TokenTree> = g.stream().into_iter().collect();
+                let mut k = 0;
+                while k < inner.len() {
+                    let (e, next) = entry(&name, &inner, k)?;
+                    out.push(e);
+                    k = next;
+                }
+                i += 3;
+            }
+            Some(TokenTree::Ident(_)) => {
+                let (e, next) = entry(&name, &tokens, i + 2)?;
+                out.push(e);
+                i = next;
+            }
+            _ => {
+                i += 1;
+            }
+        }
+    }
+    Some(out)
 }
